@@ -21,6 +21,7 @@ EXTENDS VerifCommon
 CONSTANTS Codecs,     \* subset of {"h264","h265","mpeg4","av1"}
           MaxAUs,     \* units per sequence
           MaxNALs,    \* tokens per unit
+          MaxNALs265, \* tokens per unit for h265 (its alphabet is the largest)
           EmitLen     \* sequences of this length are printed as cases
 
 Alphabet(c) ==
@@ -165,13 +166,19 @@ vars == <<codec, init, aus>>
 
 RECURSIVE SeqsUpTo(_, _)
 SeqsUpTo(S, n) == IF n = 0 THEN {<<>>} ELSE LET r == SeqsUpTo(S, n - 1) IN r \cup {Append(s, x) : s \in r, x \in S}
-Units(c) == SeqsUpTo(Alphabet(c), MaxNALs) \ {<<>>}
+Units(c) == SeqsUpTo(Alphabet(c), IF c = "h265" THEN MaxNALs265 ELSE MaxNALs) \ {<<>>}
 
 Init == codec \in Codecs /\ init \in (IF codec = "av1" THEN {"none"} ELSE {"none", "a"}) /\ aus = <<>>
 Next == /\ Len(aus) < MaxAUs
         /\ \E u \in Units(codec) : aus' = Append(aus, u)
         /\ UNCHANGED <<codec, init>>
 Spec == Init /\ [][Next]_vars
+\* for `-simulate`: one random unit per step (TLC evaluates invariants on every successor it generates,
+\* so the sampler must generate exactly one)
+SimNext == /\ Len(aus) < MaxAUs
+           /\ aus' = Append(aus, RandomElement(Units(codec)))
+           /\ UNCHANGED <<codec, init>>
+SimSpec == Init /\ [][SimNext]_vars
 
 \* layer 1 |= layer 2 for the whole sequence; a disagreement is reported, not fatal: whether the REAL
 \* code violates the statement is decided by TraceRemux on what it actually produced
